@@ -7,7 +7,7 @@ import numpy as np
 
 ID = "C04"
 PROPS_FILE = "theories/Props/C04.v"
-EXTRACT = ("theories/Extract/XC04.v", "c04", ["entry_recon", "entry_check", "entry_iter"])
+EXTRACT = ("theories/Extract/XC04.v", "c04", ["entry_recon", "entry_check", "entry_iter", "entry_prep_check"])
 PYX = {"_cpmorphology2.pyx": ["grey_reconstruction_loop"]}
 CASE_TIMEOUT = 30
 RULE = ("cases = (seed, mask, footprint) with pixel values given as integer CODES plus an order-preserving "
@@ -202,7 +202,7 @@ def generate(ctx):
     for c in cases:
         ctx.count("corpus")
     big = ctx.n(9, 30)
-    for _ in range(ctx.n(1200, 20000)):
+    for _ in range(ctx.n(3000, 20000)):
         cases.append(_random_case(rng, big))
     for c in cases:
         ctx.count("shape %s" % ("1x1" if len(c["seed"]) == 1 and len(c["seed"][0]) == 1 else
@@ -299,12 +299,19 @@ def _bad(o):
 
 
 def model(ctx, cases, outs):
-    return ctx.run_model("entry_recon", [[c["seed"], c["mask"], _fp_grid(c)] for c in cases])
+    args = [[c["seed"], c["mask"], _fp_grid(c)] for c in cases]
+    res = ctx.run_model("entry_recon", args)
+    # premise of C04_model_safe_partial, discharged per instance: the set-up state satisfies Inv
+    inv = ctx.run_model("entry_prep_check", args)
+    return [{"m": r, "inv": i} for r, i in zip(res, inv)]
 
 
 def compare(case, out, m):
-    if isinstance(m, dict):
-        return "model error: %s" % (m,)
+    inv, m = m["inv"], m["m"]
+    if isinstance(m, dict) or isinstance(inv, dict):
+        return "model error: %s %s" % (m, inv)
+    if not case.get("bad") and inv != 1:
+        return "Spec.ReconInv.prep_check is false on the set-up state of a valid input (premise of C04_model_safe_partial)"
     if case.get("bad"):
         rej_i = isinstance(out, dict) and out.get("exc") in ("AssertionError", "ValueError")
         rej_m = (m == [3])
